@@ -154,7 +154,12 @@ class KnownFindings:
             ok = True
             for k, v in e["match"].items():
                 a = attrs.get(k)
-                if isinstance(v, list):
+                if k == "region" and isinstance(v, list) and isinstance(a, str):
+                    # a finding may span several regions of the domain: every one of them must be a listed one
+                    if not all(part in v for part in a.split("+")):
+                        ok = False
+                        break
+                elif isinstance(v, list):
                     if a not in v:
                         ok = False
                         break
